@@ -18,6 +18,7 @@ import (
 	"encoding/json"
 	"flag"
 	"fmt"
+	"os"
 	"sort"
 	"strings"
 	"unicode/utf8"
@@ -33,6 +34,7 @@ import (
 func init() {
 	commands["c01"] = c01Main
 	commands["c01show"] = c01ShowMain
+	commands["c01run"] = c01RunMain
 }
 
 type c01Node struct {
@@ -619,7 +621,7 @@ func c01Main(args []string) int {
 				}
 				_, trec, key := c01Render(out.Cur, tw, cfgs[0], out)
 				out.Count("twin-renders")
-				if key == "" && trec != nil {
+				if key == "" && trec != nil && s.Extra != "star" { // (with * {display:block} the text of <style> itself is rendered)
 					a, na := c15Digest(first)
 					b, nb := c15Digest(trec)
 					if a != b {
@@ -677,5 +679,59 @@ func c01ShowMain(args []string) int {
 		return 2
 	}
 	fmt.Println(d)
+	return 0
+}
+
+// c01run renders the document of a replay file (or of a scenario line) WITHOUT recovering, so that a panic prints its stack.
+func c01RunMain(args []string) int {
+	if len(args) < 1 {
+		fmt.Println("usage: vdrive c01run <replay.json | scenario json> [cfg]")
+		return 2
+	}
+	cfg := "pango"
+	var s c01Scn
+	doc := ""
+	if b, err := os.ReadFile(args[0]); err == nil {
+		var r struct {
+			Detail struct {
+				HTML string `json:"html"`
+				Cfg  string `json:"cfg"`
+			} `json:"detail"`
+		}
+		if err := json.Unmarshal(b, &r); err != nil {
+			fmt.Println(err)
+			return 2
+		}
+		doc, cfg = r.Detail.HTML, r.Detail.Cfg
+		if strings.HasSuffix(args[0], ".html") {
+			doc = string(b)
+			cfg = "pango"
+		}
+	} else if err := json.Unmarshal([]byte(args[0]), &s); err == nil {
+		doc, _ = c01HTML(&s, nil)
+	}
+	if len(args) > 1 {
+		cfg = args[1]
+	}
+	o := &drv.Opts{Engine: "pango", Files: map[string]string{}}
+	for _, f := range strings.Split(cfg, "+") {
+		switch f {
+		case "gotext":
+			o.Engine = "gotext"
+		case "hints":
+			o.Hints = true
+		case "fullua":
+			o.FullUA = true
+		}
+	}
+	h, err := drv.Parse(doc, o)
+	if err != nil {
+		fmt.Println("refused:", err)
+		return 0
+	}
+	d := document.Render(h, nil, o.Hints, drv.Fonts(o.Engine))
+	r := rec.New()
+	d.Write(r, 1, nil)
+	fmt.Printf("returned: %d pages, %d backend calls\n", len(d.Pages), len(r.Evs))
 	return 0
 }
